@@ -77,8 +77,8 @@ func verifyFunction(fn *ssa.Function) (res *FuncResult) {
 			ex.assume(t)
 		}
 	}
-	if sp != nil && !sp.ModAny {
-		ex.hasFrame = true
+	if sp != nil {
+		ex.hasFrame = !sp.ModAny
 		ex.frameProps = sp.props()
 		if len(ex.frameProps) == 0 {
 			ex.frameProps = []string{"C20"}
@@ -156,10 +156,8 @@ func verifyFunction(fn *ssa.Function) (res *FuncResult) {
 			}
 			ex.oblige(&Obl{Fn: res.Name, Kind: "ensures", Guard: retReach, Goal: And(cs...), Props: props, Snip: "preserves " + pc.Src, Name: name})
 		}
-		// frame
-		if !sp.ModAny {
-			ex.frameObligations(res.Name, sp, pre, out, retReach)
-		}
+		// frame (for 'modifies anything' only the ghost state is framed)
+		ex.frameObligations(res.Name, sp, pre, out, retReach, sp.ModAny)
 	}
 	res.Events = ex.events
 	for _, e := range ex.events {
@@ -177,13 +175,16 @@ func verifyFunction(fn *ssa.Function) (res *FuncResult) {
 	return
 }
 
-func (ex *Exec) frameObligations(name string, sp *FuncSpec, pre, out *State, guard *Term) {
+func (ex *Exec) frameObligations(name string, sp *FuncSpec, pre, out *State, guard *Term, ghostOnly bool) {
 	var names []string
 	for n := range out.arrs {
 		names = append(names, n)
 	}
 	sort.Strings(names)
 	for _, n := range names {
+		if ghostOnly && !strictGhost[n] {
+			continue
+		}
 		goal := ex.frameFormula(n, out.arrs[n])
 		if goal == True {
 			continue
